@@ -5,6 +5,7 @@ REAL_RING = ['lib/ringbuffer.c', 'lib/ringbuffer_helper.c', 'lib/unix.c (real /d
 HARNESSES = {
     'ring_coarse': {'src': ['harness/ring_coarse.cc'], 'flavours': {}, 'rt': []},
     'map_iter': {'src': ['harness/map_iter.cc'], 'flavours': {}, 'rt': []},
+    'ipc_sim': {'src': ['harness/ipc_sim.cc'], 'flavours': {}, 'rt': []},
     'loop_sim': {'src': ['harness/loop_sim.cc'], 'flavours': {}, 'rt': []},
     'ring_conc_t': {'src': ['harness/ring_conc.cc'], 'flavours': {'ringbuffer.c': 'tsan', 'ringbuffer_helper.c': 'tsan'},
                     'rt': ['rt_tsan.o'], 'cxxflags': ['-DHARNESS_NAME="ring_conc_t"', '-DORDER_CHECK=1']},
@@ -194,6 +195,13 @@ PROPS['C18'] = {
                     'keys are non-empty NUL-terminated strings owned by the caller for the life of the process',
                     'values are non-NULL'],
 }
+
+for _p in ('C02',):
+    PROPS[_p] = {
+        'parts': [{'harness': 'ipc_sim', 'chunk': 40}], 'quick_s': 45, 'thorough_s': 900,
+        'level_quick': 'exploration', 'level_thorough': 'exploration',
+        'rule': 'tbd', 'level_text': 'tbd', 'level_note': 'tbd', 'technique': 'tbd', 'design_ref': 'DESIGN.md 4', 'real': [], 'stub': [], 'assumptions': [],
+    }
 
 NOT_APPLICABLE = {
     'C12': 'log routing is a pure function of one caller\'s configuration and call-site sequence: no schedule, clock, I/O outcome, peer or crash point for a simulator to control (DESIGN.md section 5)',
